@@ -551,7 +551,92 @@ func c03Histories(c *C) {
 	}
 }
 
+// c03BanWhileCompiling: a ban is attempted while the set's first template is still being created (from the loader's
+// callback during an include fetch, or from a second goroutine parked on that callback). Whatever the answer is, it must
+// be consistent: a ban that was ACCEPTED holds for that template too - it must not come out compiled with the banned
+// filter or tag in it.
+func c03BanWhileCompiling(c *C) {
+	r := c.R
+	useTag := r.Bool()
+	otherGoroutine := r.Bool()
+	use := "[{{ val|vprobe_f_a }}]"
+	if useTag {
+		use = "[{% vprobe_tag_a %}]"
+	}
+	before, after := "", use
+	if r.Chance(30) {
+		before, after = use, "" // the use was parsed before the ban is attempted
+	}
+	wrap := r.Pick([]string{"%s", "{%% if 1 %%}%s{%% endif %%}", "{%% block b %%}%s{%% endblock %%}"})
+	files := map[string]string{"/gate.tpl": "gate", "/first.tpl": fmt.Sprintf(wrap, before+`{% include "/gate.tpl" %}`+after)}
+	if r.Chance(30) {
+		files["/first.tpl"] = `{% extends "/gate.tpl" %}{% block b %}` + use + `{% endblock %}`
+		files["/gate.tpl"] = "gate{% block b %}{% endblock %}"
+	}
+	set, loader := newSet(files)
+	var banErr error
+	attempted := false
+	loader.onGet = func(p string) error {
+		if p != "/gate.tpl" || attempted {
+			return nil
+		}
+		attempted = true
+		ban := func() {
+			if useTag {
+				banErr = set.BanTag("vprobe_tag_a")
+			} else {
+				banErr = set.BanFilter("vprobe_f_a")
+			}
+		}
+		if otherGoroutine {
+			done := make(chan struct{})
+			go func() { defer close(done); ban() }()
+			<-done
+		} else {
+			ban()
+		}
+		return nil
+	}
+	pBefore, eBefore, fBefore := atomic.LoadInt64(&c03ParseCount[0]), atomic.LoadInt64(&c03ExecCount[0]), atomic.LoadInt64(&c03FilterCount[0])
+	tpl, err := set.FromFile("/first.tpl")
+	c.Eval(1)
+	out := ""
+	var xerr error
+	if err == nil {
+		out, xerr = tpl.Execute(c03Ctx())
+	}
+	ran := atomic.LoadInt64(&c03ExecCount[0]) != eBefore || atomic.LoadInt64(&c03FilterCount[0]) != fBefore
+	_ = pBefore
+	d := D{"files": files, "ban_attempted_during_the_fetch_of": "/gate.tpl", "from_another_goroutine": otherGoroutine, "ban_result": errStr(banErr), "compile_err": errStr(err), "exec_err": errStr(xerr), "output": q(out), "banned_code_ran": ran}
+	if !attempted {
+		c.Fail("setup", d)
+		return
+	}
+	if banErr == nil && ran {
+		c.Fail("banned-code-ran", d)
+		return
+	}
+	// and afterwards the set is frozen for good
+	var late error
+	if useTag {
+		late = set.BanTag("vprobe_tag_b")
+	} else {
+		late = set.BanFilter("vprobe_f_b")
+	}
+	if err == nil && late == nil {
+		d["late_ban"] = "accepted"
+		c.Fail("late-ban-accepted", d)
+		return
+	}
+	c.Cover("ban_while_compiling")
+	c.Nontrivial("banwhile:" + fmt.Sprint(files, useTag, otherGoroutine))
+}
+
 func c03Run(c *C) {
+	if c.Idx%16 == 5 {
+		c03BanWhileCompiling(c)
+		return
+	}
 	if c.Idx%3 == 2 {
 		c03Histories(c)
 		return
